@@ -44,11 +44,16 @@ def gen_case(rnd, tier: str, i: Any) -> Dict[str, Any]:
     return c
 
 
-def check_path(g, res: core.CaseResult, tag: str, makespan) -> float:  # noqa: ANN001
+def check_path(g, res: core.CaseResult, tag: str, makespan, weights=None) -> float:  # noqa: ANN001
+    """weights: the weights the caller set before recomputing (what-if); the path is judged against those."""
     nl = g.node_list
     path = list(g.critical_path_nodes)
     res.counters["paths_checked"] += 1
-    edges = [(u, v, d["weight"]) for u, v, d in g.edges(data=True)]
+    if weights is not None:
+        changed = [(k, weights[k], g.edges[k]["weight"]) for k in weights if g.edges[k]["weight"] != weights[k]][:4]
+        if changed:
+            res.bad("what-if-weights-kept", f"{tag}: recomputing the path altered edge weights set by the caller (edge, set, now): {changed}")
+    edges = [(u, v, (weights[(u, v)] if weights is not None else d["weight"])) for u, v, d in g.edges(data=True)]
     try:
         best, _ = refcp.longest_path(len(nl), edges)
     except ValueError:
@@ -62,7 +67,7 @@ def check_path(g, res: core.CaseResult, tag: str, makespan) -> float:  # noqa: A
         if not g.has_edge(u, v):
             res.bad("path-connected", f"{tag}: consecutive critical nodes {u}->{v} are not joined by an edge")
             return best
-        total += g.edges[u, v]["weight"]
+        total += weights[(u, v)] if weights is not None else g.edges[u, v]["weight"]
     if abs(total - best) > 1e-6 * max(1.0, abs(best)):
         res.bad("path-optimal", f"{tag}: reported critical path weighs {total}, but a path of weight {best} exists "
                 f"({len(path)} nodes, {len(edges)} edges)", total=total, best=best)
@@ -121,6 +126,7 @@ def run_case(case: Dict[str, Any], ctx: Any) -> core.CaseResult:
             if all(d["weight"] == 0 for _, _, d in g.edges(data=True)):
                 u, v = rnd.choice(elist)            # an all-zero graph is the recorded finding K3; keep the what-if meaningful
                 g.edges[u, v]["weight"] = 7
+            wset = {(u, v): d["weight"] for u, v, d in g.edges(data=True)}
             ok, r = drv.guard(res, "CPGraph.critical_path (re-weighted)", g.critical_path)
             if not ok:
                 ws = [d["weight"] for _, _, d in g.edges(data=True)]
@@ -132,7 +138,7 @@ def run_case(case: Dict[str, Any], ctx: Any) -> core.CaseResult:
             res.counters["reweighted_paths"] += 1
             if list(g.critical_path_nodes) != before:
                 res.counters["path_changed_after_reweight"] += 1
-            check_path(g, res, f"{tag} after re-weighting #{k} ({mode})", None)
+            check_path(g, res, f"{tag} after re-weighting #{k} ({mode})", None, wset)
     res.nontrivial = nontrivial
     res.trivial_reason = "no branching graph with >= 10 edges"
     res.key = core.digest([case["files"], case["win_seed"], case["zero_weight"]])
